@@ -11,9 +11,11 @@ package main
 // Not generated, with the reason (details and reproductions: notes/C14.md, corpus/C14/c14.json):
 //   documented restrictions of the dialect   closures, integer types other than int, new(), goroutines, channels,
 //                                            generics, copy() on non-byte slices, sub-slices of non-byte slices
-//   known findings of this check             function values with two or more arguments (F141); a default clause that
-//                                            is not last, fallthrough around it (F142); copying a struct value out of
-//                                            a variable, updating a value receiver (F143); < <= > >= on strings (F144);
+//   known findings of this check             (function values with two or more arguments, F141, and a default clause that
+//                                            is not last with fallthrough around it, F142, are repaired in /repo and
+//                                            generated again; C14_DENY=lambda2,earlydefault leaves them out) copying a
+//                                            struct value out of a variable, updating a value receiver (F143); < <= > >=
+//                                            on strings (F144);
 //                                            reading a map key that may be absent (F145); initialisers that depend on
 //                                            later declarations (F146); deferred calls with non-constant arguments or
 //                                            inside loops (F147); a panic under more than one pending defer (F148);
@@ -30,8 +32,8 @@ package main
 // constructs back on, to validate a repair.
 
 import (
-	"math"
 	"fmt"
+	"math"
 	"os"
 	"strings"
 )
